@@ -5,7 +5,7 @@
    Part 2 (over M-REPO, Repo/Proofs.v): no track / carry-in / recheck deletes or alters a cache object
    (theorems versions_retained / objects_unaltered below). *)
 From Coq Require Import List Bool NArith.
-From XV Require Import Base.Amap Ecs.Model Ecs.Proofs Hist.Proofs.
+From XV Require Import Base.Amap Base.Bytes Ecs.Model Ecs.Proofs Hist.Proofs.
 Import ListNotations.
 
 Section C04.
@@ -45,5 +45,26 @@ Example two_commits :
   smap (from_dir N.eqb (snd (run N.eqb (hA ++ hB) (init_st N.eqb)))) = [].
 Proof. vm_compute. repeat split. Qed.
 
+(* ---- Part 2: the cache along histories (M-REPO) -------------------------------------------------------- *)
+From XV Require Import Repo.Model Repo.Inv Repo.Restore Repo.Stamps Repo.Main Hist.Cache.
+
+(* committing a new version never deletes or alters an earlier one: along ANY history of user actions and
+   unforced track / carry-in / recheck commands, from ANY reachable repository, every cache object that was
+   there is still there with the same entry and the same bytes *)
+Theorem versions_retained (h : list item) (r : repo) (b : caddr) (e : entry) :
+  reachable_r r -> mon_run relink r h = false -> forallb unforced h = true ->
+  oget (fs r) b = Some e ->
+  oget (fs (run_items r h)) b = Some e /\ obj_read (fs (run_items r h)) b = obj_read (fs r) b.
+Proof. exact (objects_retained_run h r b e). Qed.
+
+(* so a version committed at some point is restorable after any later history that does not commit over
+   the path with --force: delete the file, recheck, and the committed bytes are back *)
+Theorem committed_version_stays_restorable (r : repo) (h : list item) (p : path) (c : bytes) (o : recheck_opts) :
+  reachable_r r -> committed r p c -> mon_run relink r h = false -> forallb (harmless p) h = true ->
+  ws_read (fs (run_items (run_items r h) [UDelete p; XRecheck o [p]])) p = Some c.
+Proof. exact (stays_restorable_final r h p c o). Qed.
+
 Print Assumptions commit_is_prefix.
+Print Assumptions versions_retained.
+Print Assumptions committed_version_stays_restorable.
 Print Assumptions commit_replays_to_its_records.
